@@ -2,6 +2,7 @@
 from ..mir import Callee, Resolver, fmt, literals, walk, strip_sites as s
 from ..kernel import Kernel, Poly, Block, Aff, symaff, OutOfFragment, kernel_return, kernel_return_soft
 from . import prune
+from ..effects import assigns
 from . import helpers
 from .prune import is_call
 from .c16 import obligation
@@ -9,13 +10,14 @@ from .c16 import obligation
 LEVEL = 'proof'
 TECHNIQUE = 'static analysis: value numbering of MIR def-use DAGs to non-commutative polynomial normal forms, compared with the documented residual identity (nothing executed)'
 RULES = {
+    'C14.R6': 'every arm of the exported macro poly! builds the half-spaces its relation spells: <  keeps M and b, + c < 0 negates c, > negates both, + c > 0 negates M',
     'C14.R5': 'dimension guards of intersection / apply_pre / apply_post assert an equality the result needs',
     'C14.R4': helpers.RULE_TEXT,
     'C14.R1': 'residual identities r\'(x) = b\' - A\'x of translate / apply_pre / apply_post / rotate / intersection(_n) / distance_raw; contains = all(r >= -1e-8); distance divides row i of r by the norm of row i of A; no crate function reads array contents in memory order / through raw pointers or strides',
     'C14.R3': 'axis_bounds / hyperrectangle / place_axis_bounds: finite lower bound -x <= -l, finite upper bound x <= u, infinite bound 0 <= 1, one pair of rows per axis',
     'C14.R2': 'constructors without data-dependent control: unbounded (0·x <= 1), empty (0·x <= -1), hypercube (stack(I, -I) <= radius); cross_polytope (rows = all 2^dim sign vectors by the bit test, right-hand side 1); from_normal (hyperplane i has normal n_i and passes through p_i)',
 }
-FLOORS = {'C14.R5': 3, 'C14.R4': 3, 'C14.R1': 10, 'C14.R2': 5, 'C14.R3': 3}
+FLOORS = {'C14.R6': 4, 'C14.R5': 3, 'C14.R4': 3, 'C14.R1': 10, 'C14.R2': 5, 'C14.R3': 3}
 EXPLANATION = ('With r(x) = b - Ax (membership: r(x) >= -1e-8 row-wise) each transformation\'s result (A\', b\') is compared, as a polynomial identity valid for all '
                'matrices, with the residual the documentation prescribes: translate r(x-d), apply_pre r(Mx+c), apply_post r(N(y-k)), rotate r(R^T y).')
 DOES_NOT_DECIDE = ('simplex (its numeric constant), the orientation of from_normal (not documented; the boundary through p_i is decided), '
@@ -25,6 +27,7 @@ TRUSTED = ['semantics of ndarray dot/+/-/neg/t/concatenate/eye/zeros/ones/from_e
 
 def run(ctx):
     helpers.run_for(ctx)
+    prune.check_macro_arms(ctx, 'C14.R6', ['poly_less', 'poly_plus_less_zero', 'poly_greater', 'poly_plus_greater_zero'])
     prune.check_dimension_guards(ctx, 'C14.R5', ['AffFuncBase::intersection', 'AffFuncBase::apply_pre', 'AffFuncBase::apply_post'])
     prune.check_layout_independence(ctx, 'C14.R1')
     F = ctx.facts
@@ -298,6 +301,21 @@ def axis_bounds(ctx, F):
                 ctx.bad('C14.R3', 'AffFuncBase::place_axis_bounds#rows', p_, b.span)
         else:
             ctx.ok('C14.R3', 'AffFuncBase::place_axis_bounds#rows', 'row idx: -x_axis <= -lower (or 0 <= 1 if lower is infinite); row idx+1: x_axis <= upper (or 0 <= 1)', b.span)
+            # the interval guard: bounds are inclusive, so lower == upper (a flat side, a point) is a legal interval -- a precondition on the
+            # two bounds may reject lower > upper only
+            lo, up = P(an[ROLES[4]]), P(an[ROLES[5]])
+            strict = []
+            n_writes = 0
+            for w in assigns(b, R):
+                n_writes += 1
+                for op, x, y in prune.cmp_facts(literals(b, R, w.bb)):
+                    x, y = s(x), s(y)
+                    if (op == 'Lt' and x == lo and y == up) or (op == 'Gt' and x == up and y == lo) or (op == 'Ne' and {x, y} == {lo, up}):
+                        strict.append(op)
+            if strict:
+                ctx.bad('C14.R3', 'AffFuncBase::place_axis_bounds#interval-guard', 'the rows are only written under lower < upper: an interval with equal bounds (inclusive on both sides) is rejected', b.span)
+            elif n_writes:
+                ctx.ok('C14.R3', 'AffFuncBase::place_axis_bounds#interval-guard', 'equal bounds are admitted (any precondition on the pair is non-strict)', b.span)
     for q, want in (('AffFuncBase::axis_bounds', 'single'), ('AffFuncBase::hyperrectangle', 'loop')):
         c = ctx.body('C14.R3', q)
         if c is None:
